@@ -11,18 +11,19 @@
 #ifndef OUTL
 # define OUTL 64
 #endif
-struct vin_t { size_t inlen; unsigned char d[6][64]; };
+#define ND ((OUTL + 31) / 32 + 2)                  /* number of chained hash values the harness can script */
+struct vin_t { size_t inlen; unsigned char d[ND][64]; };
 struct vin_t nondet_vin(void);
 struct vin_t vin;
-static unsigned ninit, nupd, nfin, none; static size_t init_out, upd_len[3], fin_len, one_out[6], one_in[6]; static const void *upd_ptr[3]; static uint32_t le_first; static unsigned nd; static int chain_ok = 1; static unsigned char last_v[64];
+static unsigned ninit, nupd, nfin, none; static size_t init_out, upd_len[3], fin_len, one_out[ND], one_in[ND]; static const void *upd_ptr[3]; static uint32_t le_first; static unsigned nd; static int chain_ok = 1; static unsigned char last_v[64];
 int crypto_generichash_blake2b_init(crypto_generichash_blake2b_state *s, const unsigned char *key, const size_t keylen, const size_t outlen) { (void) s; if (key != NULL || keylen != 0) chain_ok = 0; ninit++; init_out = outlen; return 0; }
 int crypto_generichash_blake2b_update(crypto_generichash_blake2b_state *s, const unsigned char *in, unsigned long long inlen) { (void) s; if (nupd < 3) { upd_ptr[nupd] = in; upd_len[nupd] = inlen; if (nupd == 0 && inlen == 4) le_first = in[0] | (in[1] << 8) | (in[2] << 16) | ((uint32_t) in[3] << 24); } nupd++; return 0; }
 int crypto_generichash_blake2b_final(crypto_generichash_blake2b_state *s, unsigned char *out, const size_t outlen) { (void) s; nfin++; fin_len = outlen; memcpy(out, vin.d[0], outlen <= 64 ? outlen : 64); memcpy(last_v, vin.d[0], 64); nd = 1; return 0; }
 int crypto_generichash_blake2b(unsigned char *out, size_t outlen, const unsigned char *in, unsigned long long inlen, const unsigned char *key, size_t keylen)
 {
     if (key != NULL || keylen != 0 || inlen != 64 || !v_eq(in, last_v, 64)) chain_ok = 0;      /* V(i+1) = H(V(i)) */
-    if (none < 6) { one_out[none] = outlen; one_in[none] = inlen; } none++;
-    memcpy(out, vin.d[nd < 6 ? nd : 5], outlen <= 64 ? outlen : 64); memcpy(last_v, vin.d[nd < 6 ? nd : 5], 64); nd++;
+    if (none < ND) { one_out[none] = outlen; one_in[none] = inlen; } none++;
+    memcpy(out, vin.d[nd < ND ? nd : ND - 1], outlen <= 64 ? outlen : 64); memcpy(last_v, vin.d[nd < ND ? nd : ND - 1], 64); nd++;
     return 0;
 }
 #include "crypto_pwhash/argon2/blake2b-long.c"
